@@ -318,6 +318,16 @@ func runC16(r *vk.Run) {
 				c.Fail(key, fmt.Sprintf("invalid --step %q accepted as %s (a step must be a strictly positive, finite duration)", b, d), map[string]any{"flag": "step", "value": b, "resolved": d.String()})
 			}
 		}
+		// positive as written but not representable as a positive nanosecond count: rejected, or resolved
+		// to something strictly positive -- never to 0 or a negative step
+		for _, b := range []string{"1e-10", "0.0000000001", "0.0000000005", "1e-300", "1e10", "9e18", "9223372036.854775808", "1e308"} {
+			d, err := Cmd.Step(sp(b), start, end)
+			c.Eval(1)
+			c.Count("malformed_rejected_checks", 1)
+			if err == nil && d <= 0 {
+				c.Fail("", fmt.Sprintf("--step %q accepted as %s (a step must be strictly positive)", b, d), map[string]any{"flag": "step", "value": b, "resolved": d.String()})
+			}
+		}
 		c.Nontrivial("malformed")
 		c.Sample("malformed", map[string]any{"times": badTimes, "durations": badDur, "steps": badStep})
 	})
